@@ -156,6 +156,11 @@ namespace awkward {
 
   void
   ArrayBuilder::begintuple(int64_t numfields) {
+    if (numfields < 0) {
+      throw std::invalid_argument(
+        std::string("number of fields of a tuple must not be negative")
+        + FILENAME(__LINE__));
+    }
     maybeupdate(builder_.get()->begintuple(numfields));
   }
 
